@@ -623,12 +623,10 @@ package main
 //@   loop 6 each element-relation {C01,C02,C03,C04,C05,C12,C14,C15,C19}: RelS(c, redactFieldNames, inSearchStage, elem, redactedArr[_idx])
 //@   assert_after (*orderedmap.OrderedMap).Set@newMap entry-done {C01,C02,C03,C04,C05,C12,C14,C15,C19}: PAcc(c, redactFieldNames, inSearchStage, A, elPos(el) + 1, om(newMap))
 //@   assert_after (*orderedmap.OrderedMap).Set@newSubMap sub-entry-done {C01,C02,C03,C04,C05,C12,C14,C15,C19}: PAcc(c, redactFieldNames, inSearchStage, old(om(subMap)), elPos(subEl) + 1, om(newSubMap))
-//@   at_call (*orderedmap.OrderedMap).Set@newMap entry-relation {C01,C02,C03,C04,C05,C12,C14,C15,C19}: implies(!((!redactFieldNames && opMeta == VOp(3) && polExprKey(k) && isMap(v) && value == v) || (opMeta == VOp(1) && isArr(v) && value == v)), keyOKq(c, redactFieldNames, k, key) && ElemRelP(c, redactFieldNames, inSearchStage, k, v, value, om(mapOf(v)), om(mapOf(value))))
-//@   at_call (*orderedmap.OrderedMap).Set@newMap entry-relation-expression-document-kept-under-a-field-name-key {C01,C02,C03,C04,C05,C12,C14,C15,C19}: implies((!redactFieldNames && opMeta == VOp(3) && polExprKey(k) && isMap(v) && value == v), keyOKq(c, redactFieldNames, k, key) && ElemRelP(c, redactFieldNames, inSearchStage, k, v, value, om(mapOf(v)), om(mapOf(value))))
-//@   at_call (*orderedmap.OrderedMap).Set@newMap entry-relation-array-kept-under-an-exempt-key {C01,C02,C03,C04,C05,C12,C14,C15,C19}: implies((opMeta == VOp(1) && isArr(v) && value == v) && !(!redactFieldNames && opMeta == VOp(3) && polExprKey(k) && isMap(v) && value == v), keyOKq(c, redactFieldNames, k, key) && ElemRelP(c, redactFieldNames, inSearchStage, k, v, value, om(mapOf(v)), om(mapOf(value))))
-//@   at_call (*orderedmap.OrderedMap).Set@newSubMap sub-entry-relation {C01,C02,C03,C04,C05,C12,C14,C15,C19}: implies(!((!redactFieldNames && subMeta == VOp(3) && polExprKey(subK) && isMap(subV) && value == subV) || (subMeta == VOp(1) && isArr(subV) && value == subV)), keyOKq(c, redactFieldNames, subK, key) && ElemRelP(c, redactFieldNames, inSearchStage, subK, subV, value, om(mapOf(subV)), om(mapOf(value))))
-//@   at_call (*orderedmap.OrderedMap).Set@newSubMap sub-entry-relation-expression-document-kept-under-a-field-name-key {C01,C02,C03,C04,C05,C12,C14,C15,C19}: implies((!redactFieldNames && subMeta == VOp(3) && polExprKey(subK) && isMap(subV) && value == subV), keyOKq(c, redactFieldNames, subK, key) && ElemRelP(c, redactFieldNames, inSearchStage, subK, subV, value, om(mapOf(subV)), om(mapOf(value))))
-//@   at_call (*orderedmap.OrderedMap).Set@newSubMap sub-entry-relation-array-kept-under-an-exempt-key {C01,C02,C03,C04,C05,C12,C14,C15,C19}: implies((subMeta == VOp(1) && isArr(subV) && value == subV) && !(!redactFieldNames && subMeta == VOp(3) && polExprKey(subK) && isMap(subV) && value == subV), keyOKq(c, redactFieldNames, subK, key) && ElemRelP(c, redactFieldNames, inSearchStage, subK, subV, value, om(mapOf(subV)), om(mapOf(value))))
+//@   at_call (*orderedmap.OrderedMap).Set@newMap entry-relation {C01,C02,C03,C04,C05,C12,C14,C15,C19}: implies(!((opMeta == VOp(1) && isArr(v) && value == v)), keyOKq(c, redactFieldNames, k, key) && ElemRelP(c, redactFieldNames, inSearchStage, k, v, value, om(mapOf(v)), om(mapOf(value))))
+//@   at_call (*orderedmap.OrderedMap).Set@newMap entry-relation-array-kept-under-an-exempt-key {C01,C02,C03,C04,C05,C12,C14,C15,C19}: implies((opMeta == VOp(1) && isArr(v) && value == v), keyOKq(c, redactFieldNames, k, key) && ElemRelP(c, redactFieldNames, inSearchStage, k, v, value, om(mapOf(v)), om(mapOf(value))))
+//@   at_call (*orderedmap.OrderedMap).Set@newSubMap sub-entry-relation {C01,C02,C03,C04,C05,C12,C14,C15,C19}: implies(!((subMeta == VOp(1) && isArr(subV) && value == subV)), keyOKq(c, redactFieldNames, subK, key) && ElemRelP(c, redactFieldNames, inSearchStage, subK, subV, value, om(mapOf(subV)), om(mapOf(value))))
+//@   at_call (*orderedmap.OrderedMap).Set@newSubMap sub-entry-relation-array-kept-under-an-exempt-key {C01,C02,C03,C04,C05,C12,C14,C15,C19}: implies((subMeta == VOp(1) && isArr(subV) && value == subV), keyOKq(c, redactFieldNames, subK, key) && ElemRelP(c, redactFieldNames, inSearchStage, subK, subV, value, om(mapOf(subV)), om(mapOf(value))))
 //@   at_call (*orderedmap.OrderedMap).Set@newPipelineMap facet-entry-relation {C01,C02,C03,C04,C05,C12,C14,C15,C19}: key == subK && FacetEntryRel(subV, value)
 //@   ensures key-path-frame: unchangedBelowExcept("Arr:Str", base(keyPath))
 //@   at_call redactPipelineStage search-mode-is-decided-for-each-stage-on-its-own {C01,C02,C03,C04,C05,C12,C14,C15,C19}: implies(len(arg_keyPath) == 0, IsSearch(arg_stage, arg_inSearchStage))
